@@ -33,12 +33,16 @@ IsInitial == pc = "idle" /\ requested = {} /\ hist = <<>>
 AfterAnswer == pc = "idle" /\ requests = <<>> /\ loaded # <<>> /\ ans # <<>> /\ fresh = LookupKinds
 Complete == AfterAnswer /\ requested = Libs /\ hist # <<>> /\ hist[Len(hist)].op = "Q"
 
+\* with the history recorded, many histories reach the same (content, load order): the projection is
+\* dumped for the one that queries after every request
+Stepwise == RecordHist => Cardinality({k \in DOMAIN hist : hist[k].op = "Q"}) = Cardinality({k \in DOMAIN hist : hist[k].op = "R"})
+
 DumpConstraint ==
   IF DumpFile = "" THEN TRUE
   ELSE /\ ("C" \in DumpKinds /\ IsInitial) =>
              Emit([k |-> "C", content |-> ContentJson, files |-> [l \in Libs |-> FileJson(files[l])],
                    count |-> [l \in Libs |-> FileCount(files[l])]])
-       /\ ("P" \in DumpKinds /\ AfterAnswer /\ modules = <<>> /\ ~RecordHist) =>
+       /\ ("P" \in DumpKinds /\ AfterAnswer /\ modules = <<>> /\ Stepwise) =>
              Emit([k |-> "P", content |-> ContentJson, loaded |-> loaded, proj |-> Project(db)])
        /\ ("B" \in DumpKinds /\ RecordHist /\ Complete) =>
              Emit([k |-> "B", content |-> ContentJson, hist |-> hist])
